@@ -13,6 +13,7 @@ import (
 
 	"github.com/saucelabs/forwarder"
 	"github.com/saucelabs/forwarder/verifharness/lib"
+	"github.com/saucelabs/forwarder/verifharness/wiring"
 )
 
 const (
@@ -588,6 +589,7 @@ func main() {
 	run.Floor("requests_with_body", int64(nConns/2))
 	run.Floor("pipelined_pairs", int64(nConns/20))
 	run.Floor("refused_midstream", int64(nConns/10))
+	wiring.Run(run, "C01")
 	run.Finish()
 }
 
